@@ -3,7 +3,9 @@ CHECK = dict(
     sources=["rkcommon/utility/TimeStamp.cpp"],            # Observer.h / TimeStamp.h are headers
     variants=[dict(name="asan", flavour="asan"),
               dict(name="tsan", flavour="tsan"),
-              dict(name="plain", flavour="plain")],
+              dict(name="plain", flavour="plain"),
+              # the application's translation unit initialised before the library's (static link, application first)
+              dict(name="plain-appfirst", flavour="plain", harness_first=True)],
     floor={"*:polls_expected_true": 1000,
            "*:polls_after_repeated_notifications": 100,
            "*:polls_after_observable_destroyed": 100,
@@ -15,8 +17,10 @@ CHECK = dict(
            "*:observable_slot_recreated": 20,
            "*:stamp_rounds": 16,
            "*:max_threads": 16,
-           "*:stamp_mailbox_exchanges": 100},
-    assumptions=["the epoch model in harness/c19_observer.cpp is correct",
+           "*:stamp_mailbox_exchanges": 100, "*:static_storage_scenarios": 1},
+    assumptions=["link orders: library objects first (all variants) and application objects first (plain-appfirst); objects with "
+                 "static storage in the application take stamps before main() in both",
+                 "the epoch model in harness/c19_observer.cpp is correct",
                  "observers and observables of one history live on one thread (the classes are not synchronised)",
                  "Observer objects are never copied (a copy would not be registered with the observable)",
                  "a stamp value read from another thread counts as 'obtained' only when read with proper synchronisation "
